@@ -52,9 +52,10 @@ func buildPrefix() *chainx.Prefix {
 }
 
 type workload struct {
-	name   string
-	blocks func(p *chainx.Prefix) (names []string, blocks []*reftx.Block)
-	events []string // block name | "idle" (Idle + wait for the snapshot) | "idle-nowait" | "close"
+	maxfile uint64 // BlockDBOpts.MaxDataFileSize (0 = one data file): every block in its own data file when small
+	name    string
+	blocks  func(p *chainx.Prefix) (names []string, blocks []*reftx.Block)
+	events  []string // block name | "idle" (Idle + wait for the snapshot) | "idle-nowait" | "close"
 }
 
 func mk(p *chainx.Prefix, specs ...[4]string) ([]string, []*reftx.Block) {
@@ -86,6 +87,11 @@ func workloads() []workload {
 				return mk(p, [4]string{"A1", "P", "1", "M0"}, [4]string{"A2", "A1", "1", "M1"}, [4]string{"A3", "A2", "1", ""})
 			}},
 		{name: "W2-snapshot-then-reorg", events: []string{"A1", "A2", "A3", "idle", "B2", "B3", "B4", "close"},
+			blocks: func(p *chainx.Prefix) ([]string, []*reftx.Block) {
+				return mk(p, [4]string{"A1", "P", "1", "M0"}, [4]string{"A2", "A1", "1", "M1"}, [4]string{"A3", "A2", "1", "M2"},
+					[4]string{"B2", "A1", "2", "M1"}, [4]string{"B3", "B2", "2", "M3"}, [4]string{"B4", "B3", "2", ""})
+			}},
+		{name: "W2s-side-blocks-flushed-then-reorg-one-block-per-data-file", maxfile: 300, events: []string{"A1", "A2", "A3", "idle", "B2", "B3", "idle", "B4", "close"},
 			blocks: func(p *chainx.Prefix) ([]string, []*reftx.Block) {
 				return mk(p, [4]string{"A1", "P", "1", "M0"}, [4]string{"A2", "A1", "1", "M1"}, [4]string{"A3", "A2", "1", "M2"},
 					[4]string{"B2", "A1", "2", "M1"}, [4]string{"B3", "B2", "2", "M3"}, [4]string{"B4", "B3", "2", ""})
@@ -186,6 +192,7 @@ func recoverMain(dir string, blocksFile string, libDefault bool) {
 	step := func(s string) { out.Steps = append(out.Steps, s) }
 	o := &minichain.Opts{Params: params}
 	o.ChainOpts.DoNotRescan = !libDefault
+	o.BlockDBOpts.MaxDataFileSize = *maxFile
 	e := minichain.Open(dir, o)
 	ch := e.Ch
 	out.OpenTip, out.OpenUTXO = tipOf(ch), utxoOf(ch)
@@ -283,6 +290,7 @@ func recoverMain(dir string, blocksFile string, libDefault bool) {
 	e2.Close()
 	// a third start that rebuilds the unspent set from the block files alone
 	o3 := &minichain.Opts{Params: params, Rescan: true}
+	o3.BlockDBOpts.MaxDataFileSize = *maxFile
 	e3 := minichain.Open(dir, o3)
 	out.ScanTip, out.ScanUTXO = tipOf(e3.Ch), utxoOf(e3.Ch)
 	e3.Close()
@@ -295,6 +303,7 @@ var (
 	recoverDir = flag.String("recover", "", "internal: recovery driver on this directory")
 	blocksArg  = flag.String("blocks", "", "internal: json file with the workload's blocks (hex)")
 	libDef     = flag.Bool("libdefault", false, "internal: open with the library default (DoNotRescan=false)")
+	maxFile    = flag.Uint64("maxfile", 0, "internal: BlockDBOpts.MaxDataFileSize of the workload")
 	replayFile = flag.String("replay", "", "replay a recorded violation")
 )
 
@@ -349,6 +358,7 @@ func main() {
 		rec := vos.Record(dir)
 		o := &minichain.Opts{Params: params}
 		o.ChainOpts.DoNotRescan = true
+		o.BlockDBOpts.MaxDataFileSize = w.maxfile
 		e := minichain.Open(dir, o)
 		model := p.Model.Clone()
 		for _, evn := range w.events {
@@ -432,7 +442,7 @@ func main() {
 							d = j.dir + "-v"
 							ev.CopyDir(j.dir, d)
 						}
-						extra := []string{"--blocks", bf}
+						extra := []string{"--blocks", bf, "--maxfile", fmt.Sprint(w.maxfile)}
 						if variant == "libdefault" {
 							extra = append(extra, "--libdefault")
 						}
